@@ -119,7 +119,7 @@ CHECKS = {
     'C20': dict(
         engine='E5 pty session explorer on the real interactive binary (real line editor and completer) + E1 in-process bounded-exhaustive sweep of the real completion / planning functions, bound to the editor by conformance replay',
         technique='bounded-exhaustive enumeration of all file names up to a length over the special-character alphabet x quoting contexts, completed with TAB in the real interactive binary on a pseudo-terminal and read back through a recording helper; plus bounded-exhaustive enumeration of every name up to length 3 (thorough 4) in every context through the real word-start, path-completion, Enter-processing and planning functions composed in-process, the composition being validated by recomputing every pty verdict (conformance replay)',
-        text='Every name of length 1 and 2 (thorough: also 3 in the unquoted context) over a 27-character alphabet of shell-special characters, and 40 structured names (backquote pair, $(x), ${x}, brace group, range, embedded quotes ...) in every context, preceded by a unique prefix, is created as a file (or as a directory for cd); the prefix is typed unquoted, after an open single quote and after an open double quote, TAB and Enter are pressed in the real interactive cicada on a pty: the helper must receive exactly the entry name (cd must enter exactly that directory). Candidate lists (TAB TAB) on a shared-prefix population must offer exactly the entries with the typed prefix, directories only after cd. Failures inside a batch are believed only when reproduced alone in a fresh session.',
+        text='Every name of length 1 and 2 (thorough: also 3 in the unquoted context) over a 27-character alphabet of shell-special characters, and 40 structured names (backquote pair, $(x), ${x}, brace group, range, embedded quotes ...) in every context, preceded by a unique prefix, is created as a file (or as a directory for cd); the entry lives in the working directory, a sub-directory, a sub-directory with a blank in its name, under ~/ or under $VAR/; the line may hold an argument in front of the word or one more typed character of the name; the prefix is typed unquoted, after an open single quote and after an open double quote, TAB and Enter are pressed in the real interactive cicada on a pty: the helper must receive exactly the entry name (cd must enter exactly that directory). Candidate lists (TAB TAB) on a shared-prefix population must offer exactly the entries with the typed prefix, directories only after cd. Failures inside a batch are believed only when reproduced alone in a fresh session.',
         note='Single-candidate completion per prefix; completion end is detected by terminal quiescence (40 ms); names longer than the bound are outside. The in-process layer models only the editor glue (replace the word by the single candidate + suffix); it is used only if it agrees with the real editor on every recomputed verdict.',
         ref='DESIGN.md §4 C20'),
     'C07': dict(
